@@ -54,12 +54,12 @@ TRUSTED_EXTRA = [
     "io.BufferedReader(BinaryZlibFile, 1 MiB) modelled as readinto(1 MiB) until the unpickler has its bytes",
     "bz2/lzma/xz are CPython's own file objects: the model predicts only the contract {raises, returns-original} for them; "
     "termination there is established by the watchdog runs only",
-    "hang is observed as watchdog expiry or exhaustion of a 512 MiB address-space cap in a subprocess (normal peak < 60 MiB)",
+    "hang is observed as watchdog expiry or exhaustion of a 192 MiB address-space cap in a subprocess (normal peak < 60 MiB)",
 ]
 
 COMPRESSORS = ["zlib", "gzip", "bz2", "lzma", "xz", "none"]
-CAP_MB = 512
-BLOWUP_KB = 150_000
+CAP_MB = 192
+BLOWUP_KB = 60_000
 F7_SIGNATURE = "hang:zlib-family:trailing-bytes"
 
 # ----------------------------------------------------------------------------- worker (runs in a subprocess)
@@ -74,7 +74,6 @@ logging.disable(logging.CRITICAL)
 import joblib
 from joblib.compressor import BinaryZlibFile, BinaryGzipFile
 assert os.path.realpath(os.path.dirname(os.path.dirname(joblib.__file__))) == os.path.realpath(repo), joblib.__file__
-resource.setrlimit(resource.RLIMIT_AS, (cap_mb << 20, cap_mb << 20))
 
 def make_obj(spec):
     kind = spec[0]
@@ -89,7 +88,27 @@ def make_obj(spec):
         return ["line %d\n" % (i % 7) for i in range(spec[1])]
     if kind == "str":
         return "ab" * spec[1]
+    if kind == "np":            # needs numpy: only in the python3-vt workers
+        import numpy as np
+        a = (np.arange(spec[2], dtype=spec[1]) * 3 + spec[3]).reshape(-1, 1 if spec[2] % 2 else 2) if spec[2] else np.zeros(0, dtype=spec[1])
+        return {"arr": a, "tail": ["after", "the", "array"], "second": a[:2].copy()}
     raise ValueError(spec)
+
+def same(a, b):
+    if type(a) is not type(b):
+        return False
+    if isinstance(a, dict):
+        return list(a) == list(b) and all(same(a[k], b[k]) for k in a)
+    if isinstance(a, (list, tuple)):
+        return len(a) == len(b) and all(same(x, y) for x, y in zip(a, b))
+    if type(a).__module__ == "numpy":
+        return a.dtype == b.dtype and a.shape == b.shape and a.tobytes() == b.tobytes()
+    return a == b
+
+if any(a.startswith("np") for a in sys.argv[5:6]):
+    import numpy  # noqa: load it before the cap is computed
+_vm = int(open("/proc/self/status").read().split("VmSize:")[1].split()[0]) >> 10
+resource.setrlimit(resource.RLIMIT_AS, ((_vm + cap_mb) << 20, (_vm + cap_mb) << 20))
 
 EXEC = []
 def producer(spec):
@@ -118,6 +137,10 @@ def damaged(item):
     return data + bytes.fromhex(dmg[2])
 
 def run(item):
+    if item.get("cmd") == "build":
+        comp, level = item["comp"], item["level"]
+        joblib.dump(make_obj(item["spec"]), item["path"], compress=((comp, level) if comp != "none" else 0))
+        return dict(cls="built")
     spec, route = item["spec"], item["route"]
     want = make_obj(spec)
     if route == "memory":
@@ -135,7 +158,7 @@ def run(item):
             return dict(cls="hang", detail="memory-cap")
         except Exception as e:
             return dict(cls="raises", exc=type(e).__name__)
-        return dict(cls="returns-original" if v == want else "returns-other", executed=bool(EXEC))
+        return dict(cls="returns-original" if same(v, want) else "returns-other", executed=bool(EXEC))
     data = damaged(item)
     if route == "zread":
         cls = BinaryGzipFile if data[:2] == b"\x1f\x8b" else BinaryZlibFile
@@ -158,7 +181,7 @@ def run(item):
         return dict(cls="hang", detail="memory-cap")
     except Exception as e:
         return dict(cls="raises", exc=type(e).__name__)
-    return dict(cls="returns-original" if v == want else "returns-other")
+    return dict(cls="returns-original" if same(v, want) else "returns-other")
 
 out = sys.stdout
 for line in sys.stdin:
@@ -187,8 +210,9 @@ for line in sys.stdin:
 
 
 class Worker:
-    def __init__(self, ctx, idx):
-        self.dir = ctx.scratch / f"w{idx}"
+    def __init__(self, ctx, idx, pool_dir, py):
+        self.py = py
+        self.dir = pool_dir / f"w{idx}"
         self.gen = 0
         self.script = ctx.scratch / "c14_worker.py"
         self.proc = None
@@ -198,10 +222,11 @@ class Worker:
         self.gen += 1
         d = self.dir / f"g{self.gen}"
         d.mkdir(parents=True, exist_ok=True)
-        env = dict(os.environ, PYTHONDONTWRITEBYTECODE="1")
+        env = dict(os.environ, PYTHONDONTWRITEBYTECODE="1", OPENBLAS_NUM_THREADS="1", OMP_NUM_THREADS="1")
         env.pop("PYTHONPATH", None)
         self.proc = subprocess.Popen(
-            [core.PY, str(self.script), str(core.REPO), str(d), str(CAP_MB), str(BLOWUP_KB)],
+            [self.py, str(self.script), str(core.REPO), str(d), str(CAP_MB), str(BLOWUP_KB),
+             "np" if self.py == core.PY_NUMPY else "plain"],
             stdin=subprocess.PIPE, stdout=subprocess.PIPE, stderr=subprocess.DEVNULL, bufsize=0, env=env, cwd=str(d))
         self.buf = b""
 
@@ -253,24 +278,38 @@ class Worker:
         return rep, time.time() - t0
 
 
-def run_items(ctx, items, watchdog, n_workers=14):
+def run_items(ctx, items, watchdog, n_workers=14, py=None):
+    """Run the cases in watched worker subprocesses. After two WATCHDOG expiries for the same
+    (compressor, damage kind, route) the remaining cases of that group are skipped (reply `skipped`): a
+    constant-memory endless loop costs a full watchdog period per case."""
+    py = py or core.PY
     (ctx.scratch / "c14_worker.py").write_text(WORKER_SRC)
+    import tempfile
+
+    pool_dir = Path(tempfile.mkdtemp(prefix="pool", dir=ctx.scratch))  # run() and search() never share directories
     q = queue.Queue()
     for it in items:
         q.put(it)
     replies = {}
     errors = []
+    expiries = {}
 
     def loop(idx):
-        w = Worker(ctx, idx)
+        w = Worker(ctx, idx, pool_dir, py)
         try:
             while True:
                 try:
                     it = q.get_nowait()
                 except queue.Empty:
                     return
+                group = (it.get("comp"), (it.get("damage") or ["-"])[0], it.get("route"))
+                if expiries.get(group, 0) >= 2:
+                    replies[it["id"]] = dict(id=it["id"], cls="skipped", secs=0.0)
+                    continue
                 rep, secs = w.ask(it, watchdog)
                 rep["secs"] = round(secs, 3)
+                if rep["cls"] == "hang" and str(rep.get("detail", "")).startswith("watchdog"):
+                    expiries[group] = expiries.get(group, 0) + 1
                 replies[it["id"]] = rep
         except Exception as e:  # noqa: BLE001
             errors.append(repr(e))
@@ -308,7 +347,7 @@ def _decode(comp, data):
 def _make_obj(spec):
     # same construction as in the worker (kept in sync by test: the parent only needs it to dump)
     ns = {}
-    src = WORKER_SRC.split("def make_obj(spec):")[1].split("EXEC = []")[0]
+    src = WORKER_SRC.split("def make_obj(spec):")[1].split("def same(a, b):")[0]
     exec("def make_obj(spec):" + src, ns)
     return ns["make_obj"](spec)
 
@@ -325,6 +364,23 @@ def build_file(ctx, joblib, spec, comp, level):
     p = ctx.scratch / name
     p.write_bytes(valid)
     return dict(spec=list(spec), comp=comp, level=level, valid=str(p), R=len(valid), L=len(payload), bytes=valid, payload=payload)
+
+
+def build_files_np(ctx, triples):
+    """Files holding numpy arrays are written (and later loaded) by python3-vt workers: /venv has no numpy."""
+    items, out = [], []
+    for i, (spec, comp, level) in enumerate(triples):
+        p = ctx.scratch / ("valid-%s-%s-%d.pkl" % ("_".join(str(x) for x in spec), comp, level))
+        items.append(dict(id=i, cmd="build", spec=list(spec), comp=comp, level=level, path=str(p)))
+    reps = run_items(ctx, items, 120, n_workers=4, py=core.PY_NUMPY)
+    for it in items:
+        if reps[it["id"]].get("cls") != "built":
+            raise core.InfraError(f"could not build {it}: {reps[it['id']]}")
+        valid = Path(it["path"]).read_bytes()
+        payload = _decode(it["comp"], valid)
+        out.append(dict(spec=it["spec"], comp=it["comp"], level=it["level"], valid=it["path"], R=len(valid), L=len(payload),
+                        bytes=valid, payload=payload))
+    return out
 
 
 def damages_for(rng, f, thorough, exhaustive_limit):
@@ -417,6 +473,13 @@ def file_plan(ctx, salt):
         for comp in COMPRESSORS:
             lv = (rng.choice([1, 3, 6, 9]) if comp in ("zlib", "gzip", "bz2") else 3) if comp != "none" else 0
             plan.append((spec, comp, lv))
+    # numpy arrays: the array bytes sit inside the stream and are fetched with `_read_bytes`
+    nps = [("np", "int64", 9, 1), ("np", "float64", 3000, 2)]
+    if ctx.thorough:
+        nps += [("np", "uint8", 0, 0), ("np", "int16", 20001, 3)]
+    for spec in nps:
+        for comp in COMPRESSORS:
+            plan.append((spec, comp, 3 if comp != "none" else 0))
     return plan
 
 
@@ -440,8 +503,11 @@ def _explore(ctx, salt, plan=None, only=None, budget_scale=1):
     watchdog = 60 if ctx.thorough else 20
     files, items, meta = [], [], {}
     plan = plan if plan is not None else file_plan(ctx, salt)
+    (ctx.scratch / "c14_worker.py").write_text(WORKER_SRC)
     for spec, comp, level in plan:
-        files.append(build_file(ctx, joblib, tuple(spec), comp, level))
+        if spec[0] != "np":
+            files.append(build_file(ctx, joblib, tuple(spec), comp, level))
+    files += build_files_np(ctx, [t for t in plan if t[0][0] == "np"])
     # smallest, most telling cases first: they become the replay of a finding
     order = []
     for f in files:
@@ -453,13 +519,39 @@ def _explore(ctx, salt, plan=None, only=None, budget_scale=1):
                 if rng.random() < 0.6 and "memory" in routes:
                     routes = [r for r in routes if r != "memory"]
             for route in routes:
+                if route == "zread" and zlib_table(damaged_bytes(f, dmg)) is None:
+                    continue  # no longer detected as zlib/gzip: joblib would not open it with BinaryZlibFile
                 order.append((f, dmg, route))
     order.sort(key=lambda t: (t[1][0] == "cut", t[0]["R"], len(str(t[1])), t[2] != "fileobj"))
     for i, (f, dmg, route) in enumerate(order):
         items.append(dict(id=i, spec=f["spec"], comp=f["comp"], level=f["level"], valid=f["valid"], damage=dmg, route=route))
         meta[i] = (f, dmg, route)
     t0 = time.time()
-    replies = run_items(ctx, items, watchdog)
+    plain = [it for it in items if it["spec"][0] != "np"]
+    withnp = [it for it in items if it["spec"][0] == "np"]
+    replies = {}
+    both = [None, None]
+
+    def pool(k, its, py, nw):
+        try:
+            both[k] = run_items(ctx, its, watchdog, n_workers=nw, py=py) if its else {}
+        except Exception as e:  # noqa: BLE001
+            both[k] = e
+
+    ths = [threading.Thread(target=pool, args=(0, plain, core.PY, 8)), threading.Thread(target=pool, args=(1, withnp, core.PY_NUMPY, 8))]
+    for t in ths:
+        t.start()
+    for t in ths:
+        t.join()
+    for b in both:
+        if isinstance(b, Exception):
+            raise b if isinstance(b, core.InfraError) else core.InfraError(repr(b))
+        replies.update(b)
+    if os.environ.get("C14_DEBUG"):
+        import sys as _s
+        for i, v in sorted(replies.items()):
+            if v["cls"] == "infra":
+                print("DBG", i, items[i]["spec"], items[i]["comp"], items[i]["damage"][:2], items[i]["route"], v, file=_s.stderr)
     res.extra["impl_wall_s"] = round(time.time() - t0, 2)
 
     # model: one request per distinct damaged file
@@ -475,11 +567,21 @@ def _explore(ctx, salt, plan=None, only=None, budget_scale=1):
     model = _drive(ctx, lines)
     res.extra["model_wall_s"] = round(time.time() - t1, 2)
 
+    # what the model of the UNCHANGED `_fill_buffer` (rawSourceOld, theorem C14.old_read_diverges) says about the hangs
+    hang_keys = sorted({(meta[i][0]["valid"], json.dumps(meta[i][1])) for i, r in replies.items()
+                        if r["cls"] == "hang" and keys.get((meta[i][0]["valid"], json.dumps(meta[i][1]))) is not None})[:300]
+    by_valid = {f["valid"]: f for f in files}
+    old_lines = [driver_line(by_valid[v], json.loads(d), "old") for v, d in hang_keys]
+    old_model = dict(zip(hang_keys, _drive(ctx, old_lines))) if old_lines else {}
+
     slow = 0.0
     for i, (f, dmg, route) in meta.items():
         rep = replies.get(i)
         if rep is None:
             raise core.InfraError(f"no reply for case {i}")
+        if rep["cls"] == "skipped":
+            res.count("skipped-after-repeated-watchdog-expiry")
+            continue
         if rep["cls"] == "infra":
             raise core.InfraError(f"worker: {rep.get('detail')} on {_case(f, dmg, route)}")
         case = _case(f, dmg, route)
@@ -504,6 +606,11 @@ def _explore(ctx, salt, plan=None, only=None, budget_scale=1):
             res.count("model=unmodelled")
         # ---------------- oracle on the implementation (does not use the model)
         impl = rep["cls"]
+        if impl == "hang":
+            om = old_model.get((f["valid"], json.dumps(dmg)))
+            rep["detail"] = "%s; model of the unchanged _fill_buffer predicts: %s" % (rep.get("detail"), om or "n/a")
+            if om and om.split()[0] == "hang":
+                res.count("hang-predicted-by-old-code-model")
         if route == "zread":
             if impl == "hang":
                 res.fail(F7_SIGNATURE if kind == "trailing-bytes" else f"hang:{f['comp']}:{kind}", case, rep.get("detail"))
@@ -540,7 +647,7 @@ def _explore(ctx, salt, plan=None, only=None, budget_scale=1):
                 res.diverge("load-class", case, impl + (":" + rep.get("exc", "") if impl == "raises" else ""), mrep[0])
     res.extra["slowest_terminating_case_s"] = slow
     res.assumptions = [
-        "files are written by the same joblib (dump is not under test here); objects are plain Python (no numpy in /venv)",
+        "files are written by the same joblib (dump is not under test here); plain Python objects run under /venv/bin/python, objects holding numpy arrays under python3-vt (numpy) with PYTHONPATH-free sys.path insertion of VERIF_REPO",
         f"watchdog {watchdog}s per case, address-space cap {CAP_MB} MiB per worker; slowest terminating case {slow}s",
         "payload < 1 MiB in the quick tier, so the first BufferedReader fill drives the file object to end of stream",
     ]
